@@ -33,9 +33,11 @@ RULE = (
     "(MDOChain/MDOParallelChain nesting), the leaves flattened and shuffled into MDAChain (chain_linearize on/off, single "
     "assignment), or MDOAdditiveChain over parallel children all writing the summed variable. Then 1-4 requests: execute, "
     "linearize(compute_all_jacobians), or add_differentiated_inputs/outputs(subset)+linearize, at one of the 1-2 drawn "
-    "points or at the first point with only the last external variable moved (sub-discipline caches are hit). Six "
-    "hand-made payloads (diamond closing at a cached last member, linear in-place update; dense/csr/operator) are "
-    "run first. Reference: forward-mode tangent propagation of the exact partials along the execution order. "
+    "points or at the first point with only one drawn process input moved (sub-discipline caches are hit); the top-level "
+    "process keeps its single-entry cache or gets a MemoryFullCache (1 in 3); the first member of an additive top may be "
+    "restricted to the oldest external variable. Eleven hand-made payloads (diamond closing at a cached last member, linear "
+    "in-place update, additive chain whose first member is served from its cache, execute(p1)/execute(p2)/linearize(p1) "
+    "with a memory-full cache on MDAChain and MDOChain) are run first. Reference: forward-mode tangent propagation of the exact partials along the execution order. "
     "Non-trivial = some output reached from an external variable by >=2 paths (diamond) or an overwritten variable, "
     "and a strict-subset request that was answered; distinct = structural hash of the payload."
 )
@@ -47,7 +49,7 @@ ASSUMPTIONS = [
     "and MDAChain compositions are single-assignment: each variable has one producer",
     "requested names are inputs/outputs of the process grammar; the MDA residual-norm output is never requested",
     "extra blocks returned beyond the request are not judged",
-    "cases falling in the classes of the open ledger entries C09-F1..F8 are skipped (counted in excluded_by_known_finding); "
+    "cases falling in the classes of the open ledger entries (C09-F3, F5, F8, F9 at the time of writing) are skipped (counted in excluded_by_known_finding); "
     "the predicates are structural (computed from the payload), somewhat wider than the exact failing sets",
 ]
 
@@ -103,12 +105,12 @@ def compositions(draw):
     level1 = st.one_of(_leaf(), _leaf(), _leaf(), _inner(level2, 2, 3))
     top = draw(st.sampled_from(["tree", "tree", "tree", "tree", "mda", "mda_lin", "additive", "additive"]))
     if top == "additive":
-        root = {"k": "parallel", "c": draw(st.lists(st.one_of(_leaf(), _leaf(), _inner(_leaf(), 2, 2).map(lambda d: {**d, "k": "chain"})),
+        root = {"k": "parallel", "first_reads_oldest": draw(st.booleans()), "c": draw(st.lists(st.one_of(_leaf(), _leaf(), _inner(_leaf(), 2, 2).map(lambda d: {**d, "k": "chain"})),
                                                    min_size=2, max_size=3)), "threads": 1}
     else:
         root = {"k": draw(st.sampled_from(["chain", "chain", "chain", "parallel"])), "c": draw(st.lists(level1, min_size=2, max_size=4)),
                 "threads": draw(st.sampled_from([1, 1, 2]))}
-    n_ext = draw(st.sampled_from([1, 1, 2])) if top == "additive" else draw(st.integers(1, 3))
+    n_ext = draw(st.sampled_from([1, 2, 2, 3])) if top == "additive" else draw(st.integers(1, 3))
     ops = draw(st.lists(st.one_of(
         st.fixed_dictionaries({"op": st.just("lin"), "ins": st.lists(st.integers(0, 5), min_size=1, max_size=3),
                                "outs": st.lists(st.integers(0, 7), min_size=1, max_size=3), "pt": st.sampled_from([0, 0, 1, 2])}),
@@ -123,6 +125,10 @@ def compositions(draw):
         "root": root,
         "sum_size": draw(st.integers(1, 2)),
         "shuffle": draw(st.integers(0, 5039)),
+        # cache of the top-level process: the default single-entry cache or one keeping every evaluation
+        "cache": draw(st.sampled_from(["simple", "simple", "memory_full"])),
+        # which process input is moved in the extra point (index modulo the process inputs; None: the last external variable)
+        "moved": draw(st.one_of(st.none(), st.integers(0, 3), st.integers(0, 3))),
         "points": draw(st.lists(st.lists(st.integers(-4, 4), min_size=1, max_size=6), min_size=1, max_size=2)),
         "ops": ops,
     }
@@ -203,8 +209,11 @@ class Built:
                     local.append(name)
         else:
             taken: set[str] = set()
-            for c in node["c"]:
-                r = self._resolve_parallel_child(c, list(visible), allow_over, taken)
+            for idx, c in enumerate(node["c"]):
+                # additive tops: the first member may be restricted to the oldest external variable, so that it is
+                # served from its own cache when another input moves
+                seen = visible[:1] if idx == 0 and node.get("first_reads_oldest") else list(visible)
+                r = self._resolve_parallel_child(c, seen, allow_over, taken)
                 children.append(r)
                 taken.update(written_names(r))
         return {"k": kind, "c": children, "threads": int(node.get("threads", 1))}
@@ -384,6 +393,8 @@ def case_chain_rule(p, ctx):
             ctx.known("inplace_variable_composed_after_a_sibling_output"):
         return  # C09-F8
     process = build_process(built)
+    if p.get("cache", "simple") == "memory_full":
+        process.set_cache(process.CacheType.MEMORY_FULL, is_memory_shared=False)
     residual_name = getattr(process, "NORMALIZED_RESIDUAL_NORM", None)
     in_names = sorted(process.io.input_grammar)
     out_names = sorted(n for n in process.io.output_grammar if n != residual_name)
@@ -407,7 +418,8 @@ def case_chain_rule(p, ctx):
     # one more point: the first one with only the last external variable moved (members that do not depend on it
     # answer from their caches)
     moved = {u: v.copy() for u, v in points[0].items()}
-    moved[built.ext[-1]] = moved[built.ext[-1]] + 1.0
+    moved_name = built.ext[-1] if p.get("moved") is None or not in_names else in_names[int(p["moved"]) % len(in_names)]
+    moved[moved_name] = moved[moved_name] + 1.0
     points.append(moved)
     refs = [ref_forward(built, pt) for pt in points]
     rtol = 1e-8 if built.top == "mda" else 1e-10  # tolerance: rtol * (1 + max|J_ref|)
@@ -416,10 +428,18 @@ def case_chain_rule(p, ctx):
     d_out: list[str] = []
     answered_subset = False
     n_lin = 0
+    chain_top_full_cache = built.top == "tree" and built.tree["k"] != "parallel" and p.get("cache", "simple") == "memory_full"
+    seen_inputs: list[tuple] = []  # input data the process really executed, in order
     for step, op in enumerate(p["ops"]):
         k = int(op["pt"]) % len(points)
         data = {u: points[k][u].copy() for u in in_names}
         r_val, r_tan, _ = refs[k]
+        key = tuple(float(x) for u in in_names for x in data[u])
+        if chain_top_full_cache and op["op"] != "exec" and key in seen_inputs and seen_inputs[-1] != key and \
+                ctx.known("chain_with_multi_entry_cache_linearised_at_revisited_point"):
+            return  # C09-F9: the chain is served from its cache, its members are still at the last executed point
+        if key not in seen_inputs:
+            seen_inputs.append(key)
         if op["op"] == "exec":
             out = process.execute(data)
             pairs = []
@@ -498,6 +518,11 @@ def case_chain_rule(p, ctx):
         ctx.cls("has_independent_pair")
     if n_lin >= 2:
         ctx.cls("successive_linearisations>=2")
+    if p.get("cache", "simple") == "memory_full":
+        ctx.cls("top_cache=memory_full")
+        visited = [int(op["pt"]) % len(points) for op in p["ops"]]
+        if any(visited[i] in visited[:i] and visited[i] != visited[i - 1] for i in range(1, len(visited))):
+            ctx.cls("memory_full_point_revisited_after_another")
     if answered_subset:
         ctx.cls("strict_subset_request")
     if "operator" in kinds:
@@ -638,6 +663,26 @@ def scenarios():
                "root": {"k": "chain", "threads": 1, "c": [
                    _mk_leaf([0], [_mk_out(lin, over=["in", 0])], jac, linear=True), _mk_leaf([0], [_mk_out([[[1.0, [0, 0]]]])], jac)]},
                "ops": [{"op": "lin", "ins": [0], "outs": [1], "pt": 0}, {"op": "all", "pt": 0}]}
+
+
+    sq = [[[1.0, [0, 0], [0, 0]]]]  # square of the first input
+    for jac in ("dense", "sparse"):
+        # additive chain whose first member does not read the moved (last) external variable: the chain recomputes,
+        # the first member answers from its cache; then back to the first point
+        yield {"top": "additive", "sum_size": 1, "shuffle": 0, "points": [[1]], "cache": "simple", "moved": None,
+               "ext": [{"letter": 0, "size": 1}, {"letter": 0, "size": 1}],
+               "root": {"k": "parallel", "threads": 1, "c": [
+                   _mk_leaf([1], [_mk_out(sq)], jac), _mk_leaf([1, 0], [_mk_out([[[1.0, [0, 0], [1, 0]]]])], jac)]},
+               "ops": [{"op": "all", "pt": 0}, {"op": "all", "pt": 1}, {"op": "all", "pt": 1},
+                       {"op": "lin", "ins": [0], "outs": [2], "pt": 0}]}
+    for top in ("mda_lin", "mda", "tree"):
+        # a cache keeping every evaluation on the top-level process: evaluate at two points, then linearise at the first
+        yield {"top": top, "sum_size": 1, "shuffle": 0, "points": [[3], [-1]], "cache": "memory_full", "moved": None,
+               "ext": [{"letter": 0, "size": 1}],
+               "root": {"k": "chain", "threads": 1, "c": [
+                   _mk_leaf([0], [_mk_out(sq)]), _mk_leaf([0, 1], [_mk_out([[[1.0, [0, 0], [0, 0]], [1.0, [1, 0]]]])])]},
+               "ops": [{"op": "exec", "pt": 0}, {"op": "exec", "pt": 1}, {"op": "all", "pt": 0},
+                       {"op": "lin", "ins": [0], "outs": [0], "pt": 1}]}
 
 
 ORACLES = {"chain_rule": case_chain_rule, "scenarios": case_chain_rule}
